@@ -74,3 +74,18 @@ claim("C20", "sim+pairs",
       "Around every processed message the callback count must be 1 iff some copy's watermark rose, and that must match the reset rule evaluated on the independently decoded delta; histories supply stale duplicates and third-party resets, pairs supply several resets in one message and members created by the same message. Exploration.",
       SIM_NOTE,
       "DESIGN.md 4/C20")
+claim("C10", "fd",
+      "property-based generation of (configuration, arrival history, evaluation times) on a virtual clock; bound oracle with explicit float tolerance",
+      "Heartbeats reach a real node through SYN digests at generated virtual times (bursts, steady, jittered, beyond max_interval, long silences, up to 2,000 arrivals), with evaluations placed at random and exactly around last_fresh + phi x max(max_interval, initial_interval); any evaluation later than that deadline must classify the member dead, and live requires two fresh observations within max_interval since the last dead evaluation. Exploration.",
+      "Paused tokio clock; tolerance T*1e-9 + 1 us around the deadline; configuration ranges of the property.",
+      "DESIGN.md 4/C10")
+claim("C11", "fd",
+      "metamorphic twin (stale digests must not matter) + accuracy bound on generated steady schedules",
+      "Two identical observers get the same fresh schedule, the twin also gets equal/lower/relayed heartbeats at generated times (incl. at the death deadline): classification and stored heartbeat must agree at every evaluation, and nobody is live before two increasing heartbeats. Accuracy: for gaps in [a,b] <= max_interval and phi = b/min(a,initial) (1+margin), every evaluation inside a gap from the third observation on must say live. Exploration.",
+      "Paused tokio clock; relative tolerance 1e-9 on the accuracy bound.",
+      "DESIGN.md 4/C11")
+claim("C18", "catchup",
+      "property-based generation of (existing copy, supplied state) with a twin node; validity-predicate oracle",
+      "The catch-up entry point is called on real nodes holding an absent / empty / arbitrary (incl. mid-reset) / removed-and-remembered copy with supplied states that are consistent or not; afterwards: no panic, frontier not lowered, copy unchanged or exactly the supplied key set merged by version, removed members stay absent, liveness at the next evaluation equals a twin's that did not receive the call, and follow-up honest gossip neither panics nor regresses. Exploration.",
+      "Versions 0..12, <= 4 keys; follow-up gossip only after well-formed supplied states.",
+      "DESIGN.md 4/C18")
